@@ -317,9 +317,24 @@ def attribute_case(kind, supplied, version, restart, part):
             else:   # one half of a generated pair: the supplied attributes go into that half's template
                 pa = W.rsa_pair_attrs()
                 mine = 'public' if kind == 'PublicKey' else 'private'
-                pa[mine] = list(attrs)
-                pa['private' if mine == 'public' else 'public'] = [W.attr(
+                theirs = 'private' if mine == 'public' else 'public'
+                pa[theirs] = [W.attr(
                     AT.CRYPTOGRAPHIC_USAGE_MASK, [CUM.SIGN] if mine == 'public' else [CUM.VERIFY])]
+                if origin == 'pair':
+                    pa[mine] = list(attrs)
+                else:
+                    # pairc: the supplied attributes arrive in the COMMON template (the usage mask stays in
+                    # this half's own); paircx: the other half's template moreover carries its own values
+                    # for the same attributes - which concern the other half only
+                    own_mask = [a for a in attrs if a.attribute_name.value == 'Cryptographic Usage Mask']
+                    pa[mine] = own_mask
+                    pa['common'] = pa['common'] + [a for a in attrs if a not in own_mask]
+                    if origin == 'paircx':
+                        pa[theirs] = pa[theirs] + W.common_attrs(
+                            ['their-' + n for n in supplied['names']], None,
+                            ['their-' + g for g in supplied['groups']],
+                            [(ns, 'their-' + d) for ns, d in supplied['appinfo']],
+                            None if supplied['sensitive'] is None else not supplied['sensitive'])
                 item = W.p_create_key_pair(**pa)
                 uid_tag = (W.TAG.PUBLIC_KEY_UNIQUE_IDENTIFIER if mine == 'public'
                            else W.TAG.PRIVATE_KEY_UNIQUE_IDENTIFIER)
@@ -487,7 +502,8 @@ def run(tier, seed):
     tasks = [('fidelity', (labels[i::n], combos)) for i in range(n) if labels[i::n]]
     sups = supplied_menu()
     for k in list(W.KINDS) + ['SymmetricKey@create', 'SymmetricKey@derive', 'PublicKey@pair',
-                              'PrivateKey@pair']:
+                              'PrivateKey@pair', 'PublicKey@pairc', 'PrivateKey@pairc', 'PublicKey@paircx',
+                              'PrivateKey@paircx']:
         for j in range(2):
             tasks.append(('attributes', ([k], sups[j::2], acombos)))
     distinct = 0
